@@ -36,6 +36,7 @@ def strategy(tier):
         p_weld=st.sampled_from([0.0, 0.2, 0.5]),
         mocap=st.integers(0, 2),
         cameras=st.integers(0, 3),
+        cam_vertical=st.sampled_from([0.0, 0.5]),
         lights=st.integers(0, 3),
         tendons=st.integers(0, 2),
         spatial_tendons=st.integers(0, 3),
